@@ -147,6 +147,9 @@ func (t *Tr) copyIn(args []ssa.Value) []*Addr {
 		ty := ad.storedType()
 		cell := &Addr{Kind: aCell, Heap: cellHeapName(ty), Obj: t.val(a).S, Ty: ty}
 		if s := t.vc.sortOf(ty); s == SInt_ || s == SBool_ || s == SSlc || s == SIfc {
+			// remember what the (virtual) cell held so it can be restored after the call
+			prev := t.load(t.cur, cell)
+			cell.Idx = t.define("cellprev", prev.Sort, prev.S) // (Idx is unused for cells: carries the saved content)
 			t.store(t.cur, cell, t.load(t.cur, ad).S)
 			out = append(out, cell)
 			t.vc.Trusted["interior pointer passed by copy-in/copy-out (no aliasing through the owner during the call)"] = true
@@ -164,6 +167,7 @@ func (t *Tr) copyOut(args []ssa.Value, cells []*Addr) {
 		}
 		ad := t.addrs[a]
 		t.store(t.cur, ad, t.load(t.cur, cells[i]).S)
+		t.store(t.cur, cells[i], cells[i].Idx)
 	}
 }
 
@@ -455,11 +459,10 @@ func (t *Tr) havocLocation(m Clause, env *Env, key string) {
 				h := t.heapGet(t.cur, "G_"+g.Name, s)
 				var as []string
 				for i, a := range call.Args {
-					v, err := env.evalAny(a)
+					v, err := env.evalArg(a, ptys[i])
 					if err != nil {
 						efail("%s:%d: modifies of %s: %v", m.File, m.Line, key, err)
 					}
-					v = env.coerce(v, ptys[i])
 					as = append(as, v.T.S)
 				}
 				nv := t.fresh("g_"+g.Name, t.vc.sortOf(rty))
@@ -492,6 +495,15 @@ func (t *Tr) havocLocation(m Clause, env *Env, key string) {
 	// location expressions: x.f, *p, a[i]
 	switch x := m.E.(type) {
 	case *SSel:
+		if sty, fi := t.typeField(x, env.pkg); sty != nil {
+			// Type.field: the field of every object of that type
+			set := map[string]bool{}
+			t.modsOfField(sty, sty.Underlying().(*types.Struct).Field(fi), set)
+			for n := range set {
+				t.heapHavoc(t.cur, n)
+			}
+			return
+		}
 		base, err := env.evalAny(x.X)
 		_ = base
 		if err != nil {
@@ -528,6 +540,32 @@ func (t *Tr) havocLocation(m Clause, env *Env, key string) {
 	default:
 		efail("%s:%d: unsupported modifies target %q", m.File, m.Line, m.Src)
 	}
+}
+
+// typeField recognises `T.f` (T a struct type name in scope).
+func (t *Tr) typeField(x *SSel, pkg string) (types.Type, int) {
+	var obj types.Object
+	switch b := x.X.(type) {
+	case *SIdent:
+		obj = t.w.lookupQualified("", b.Name, pkg)
+	case *SSel:
+		if id, ok := b.X.(*SIdent); ok {
+			obj = t.w.lookupQualified(id.Name, b.Sel, pkg)
+		}
+	}
+	tn, ok := obj.(*types.TypeName)
+	if !ok {
+		return nil, 0
+	}
+	st, ok := tn.Type().Underlying().(*types.Struct)
+	if !ok {
+		return nil, 0
+	}
+	i := findField(st, x.Sel)
+	if i < 0 {
+		return nil, 0
+	}
+	return tn.Type(), i
 }
 
 func (t *Tr) havocAddr(a *Addr) {
@@ -630,6 +668,12 @@ func (t *Tr) modsOfClause(ct *Contract, m Clause, set map[string]bool) {
 			return
 		}
 	}
+	if x, ok := root.(*SSel); ok {
+		if sty, fi := t.typeField(x, ct.Pkg); sty != nil {
+			t.modsOfField(sty, sty.Underlying().(*types.Struct).Field(fi), set)
+			return
+		}
+	}
 	// Field / deref / slice targets: resolve types from the callee's signature.
 	ty := t.clauseRootType(ct, m)
 	if ty == nil {
@@ -685,6 +729,9 @@ func (t *Tr) clauseRootType(ct *Contract, m Clause) types.Type {
 		operand = x.X
 	default:
 		operand = m.E
+	}
+	if strings.HasSuffix(m.Src, "[*]") {
+		operand = m.E // the slice or map itself
 	}
 	vars := map[string]types.Type{}
 	for _, p := range ct.Params {
@@ -779,7 +826,9 @@ func (t *Tr) frameAtReturn() {
 		}
 		t.n++
 		q := fmt.Sprintf("qf_%d", t.n)
-		parts = append(parts, fmt.Sprintf("(forall ((%s Int)) (=> (< %s %s) (= (select %s %s) (select %s %s))))", q, q, next0, a, q, b, q))
+		// aroot: the allocation an (interior) address belongs to
+		t.vc.declFun("aroot", "(define-fun adec ((p Int)) Int (let ((e (div (- (- p) 1) 4096))) (ite (= (mod e 2) 0) (div e 2) (- (div e 2)))))\n(define-fun aroot ((p Int)) Int (ite (> p 0) p (let ((q (adec p))) (ite (> q 0) q (let ((q2 (adec q))) (ite (> q2 0) q2 (adec q2)))))))")
+		parts = append(parts, fmt.Sprintf("(forall ((%s Int)) (=> (< (aroot %s) %s) (= (select %s %s) (select %s %s))))", q, q, next0, a, q, b, q))
 	}
 	f := mkAnd(parts...)
 	if t.curReach != "true" {
